@@ -199,7 +199,7 @@ var predicateMachinery = []string{
 func init() {
 	register(&propDef{
 		ID:          "C01",
-		Explanation: "Decides two structural necessary conditions of the path law over ALL programs and inputs: (SEQ) no evaluator-internal *sequence is ever stored inside a value, handed to a callable/reflect mutator, or returned by eval/Eval/a built-in — a symbolic may-wrap-a-sequence dataflow over every reflect.Value/interface SSA value of the module with the asSequence refinement; (NF) every kind-specific reflect accessor (Len/Index/MapKeys/MapIndex/Field...) in the path machinery is applied to a provably resolved value (jtypes.Resolve / arrayify / MakeSlice results, interprocedural). Breaking either makes a path over arrays nested in arrays return an internal object or panic. (W) the path machinery (eval, evalPath, evalPathStep, evalOverArray/Sequence, evalName*, wildcard/descendant walkers, the sequence type) writes no memory that existed before the evaluation and keeps no cache: a path's value depends on the expression and the input only. NOT decided: order, one-level flattening, singleton collapse, keep-array marker as values. (LASTSTEP) a per-item result leaves evalPathStep unwrapped only under the last-step flag, which evalPath sets for the last index of the step list; (PARENS) inside jparse the contents of a parenthesised block are read only by BlockNode's own methods, so no optimisation splices a parenthesised sub-path into the enclosing path.",
+		Explanation: "Decides two structural necessary conditions of the path law over ALL programs and inputs: (SEQ) no evaluator-internal *sequence is ever stored inside a value, handed to a callable/reflect mutator, or returned by eval/Eval/a built-in — a symbolic may-wrap-a-sequence dataflow over every reflect.Value/interface SSA value of the module with the asSequence refinement; (NF) every kind-specific reflect accessor (Len/Index/MapKeys/MapIndex/Field...) in the path machinery is applied to a provably resolved value (jtypes.Resolve / arrayify / MakeSlice results, interprocedural). Breaking either makes a path over arrays nested in arrays return an internal object or panic. (W) the path machinery (eval, evalPath, evalPathStep, evalOverArray/Sequence, evalName*, wildcard/descendant walkers, the sequence type) writes no memory that existed before the evaluation and keeps no cache: a path's value depends on the expression and the input only. NOT decided: order, one-level flattening, singleton collapse, keep-array marker as values. (LASTSTEP) a per-item result leaves evalPathStep unwrapped only under the last-step flag, which evalPath sets for the last index of the step list; (PARENS) inside jparse the contents of a parenthesised block are read only by BlockNode's own methods, so no optimisation splices a parenthesised sub-path into the enclosing path. (FLAT1) the functions reached from evalPath/evalPathStep without passing the dispatcher eval contain no call cycle, so a step result cannot be flattened recursively.",
 		Rule:        commonRule,
 		Fixtures:    []string{"seq", "nf", "w"},
 		Run: func(c *Ctx, r *Result) {
@@ -226,7 +226,7 @@ func init() {
 	})
 	register(&propDef{
 		ID:          "C02",
-		Explanation: "Decides the NF discipline in the predicate machinery (evalPredicate, applyFilter, arrayify, normalizeArray and the evalPath->evalPathStep->evalOverArray chain a filter path enters with an array item): every reflect accessor receiver is provably resolved on every path, interprocedurally. This is the clause behind the two panics the property names (x[$$.idx], arr[o] on [[1]]). (W) evalPredicate, applyFilter and their helpers write no pre-existing memory and keep no state between calls. (LISTFLOW) in evalPredicate every filter is applied to arrayify of the step's own value or of the survivor list the previous applyFilter returned, and the result is no value or normalizeArray of those survivors — never an element picked out of the list, which arrayify would mistake for the list when it is itself an array. NOT decided: floor/negative index arithmetic, boolean casting, number-array detection, step-local vs whole-path attachment (value-level). (F2I) the numeric predicate is floored (math.Floor) before it becomes an integer position: no float-to-integer conversion in the predicate machinery truncates.",
+		Explanation: "Decides the NF discipline in the predicate machinery (evalPredicate, applyFilter, arrayify, normalizeArray and the evalPath->evalPathStep->evalOverArray chain a filter path enters with an array item): every reflect accessor receiver is provably resolved on every path, interprocedurally. This is the clause behind the two panics the property names (x[$$.idx], arr[o] on [[1]]). (W) evalPredicate, applyFilter and their helpers write no pre-existing memory and keep no state between calls. (LISTFLOW) in evalPredicate every filter is applied to arrayify of the step's own value or of the survivor list the previous applyFilter returned, and the result is no value or normalizeArray of those survivors — never an element picked out of the list, which arrayify would mistake for the list when it is itself an array. NOT decided: floor/negative index arithmetic, boolean casting, number-array detection, step-local vs whole-path attachment (value-level). (F2I) the numeric predicate is floored (math.Floor) before it becomes an integer position: no float-to-integer conversion in the predicate machinery truncates. (FILTERALL) the loop of applyFilter over the items is left from inside its body only by error returns: every item is judged.",
 		Rule:        commonRule,
 		Fixtures:    []string{"nf", "w"},
 		Run: func(c *Ctx, r *Result) {
@@ -245,7 +245,7 @@ func init() {
 	})
 	register(&propDef{
 		ID:          "C03",
-		Explanation: "Decides four structural clauses of the operator table: (FIN) every float produced by evalNumericOperator/evalNegation/evalRange passes two-sided math.IsInf and math.IsNaN tests whose true edges leave by an error return before it is boxed into a value (bit-set dataflow {Inf,NaN} with dominance-based guards); (GUARD) evalRange's size test 0<=size<=10,000,000 dominates the allocation and the constant is the property's; (LAZY) in evalConditional Then/Else are evaluated only on the true/false edge of jlib.Boolean(cond) and no path runs both; (TAB) every switch over NumericOperator/ComparisonOperator/BooleanOperator in the evaluator covers all declared constants, and each parser led is registered for exactly the tokens its switch handles, so no 'unrecognised operator' panic is reachable; (OPTAB) the value each operator's case computes, read from the SSA of the three operator evaluators: + - * / are the float operation on (left, right) in that order, % is math.Mod(left, right), = != < <= > >= in go through eq/lt/lte/in with the documented negations and operand order, and/or are the short-circuit of jlib.Boolean(left), jlib.Boolean(right), & boxes conv(left) + conv(right) on every success path with conv = \"\" for a missing value and jlib.String otherwise, lt compares strictly left with right, and evalNumericOperator contains no arithmetic outside those five cases (no fast path). NOT decided: operand kind checking and the error chosen for each kind combination; eq's deep comparison. (MAPEQ) a hand-written comparison of two maps compares sizes and presence; (F2I) the range size is the difference of two bounds tested to be integers; (NEGFOLD) the optimiser turns a negation only into a NegationNode or a folded number literal, so the operand check of unary minus is never optimised away.",
+		Explanation: "Decides four structural clauses of the operator table: (FIN) every float produced by evalNumericOperator/evalNegation/evalRange passes two-sided math.IsInf and math.IsNaN tests whose true edges leave by an error return before it is boxed into a value (bit-set dataflow {Inf,NaN} with dominance-based guards); (GUARD) evalRange's size test 0<=size<=10,000,000 dominates the allocation and the constant is the property's; (LAZY) in evalConditional Then/Else are evaluated only on the true/false edge of jlib.Boolean(cond) and no path runs both; (TAB) every switch over NumericOperator/ComparisonOperator/BooleanOperator in the evaluator covers all declared constants, and each parser led is registered for exactly the tokens its switch handles, so no 'unrecognised operator' panic is reachable; (OPTAB) the value each operator's case computes, read from the SSA of the three operator evaluators: + - * / are the float operation on (left, right) in that order, % is math.Mod(left, right), = != < <= > >= in go through eq/lt/lte/in with the documented negations and operand order, and/or are the short-circuit of jlib.Boolean(left), jlib.Boolean(right), & boxes conv(left) + conv(right) on every success path with conv = \"\" for a missing value and jlib.String otherwise, lt compares strictly left with right, and evalNumericOperator contains no arithmetic outside those five cases (no fast path). NOT decided: operand kind checking and the error chosen for each kind combination; eq's deep comparison. (MAPEQ) a hand-written comparison of two maps compares sizes and presence; (F2I) the range size is the difference of two bounds tested to be integers; (NEGFOLD) the optimiser turns a negation only into a NegationNode or a folded number literal, so the operand check of unary minus is never optimised away. (RANGECAP) every integer converted from a JSONata number, and what is derived from it by adding constants or by passing it on, is shown by the interval prover to be at most ten million wherever it is a slice length or capacity, the initial value of a loop counter or a loop bound.",
 		Rule:        commonRule,
 		Fixtures:    []string{"fin", "guard", "tab", "w", "shape"},
 		Run: func(c *Ctx, r *Result) {
@@ -284,7 +284,7 @@ func init() {
 	})
 	register(&propDef{
 		ID:          "C04",
-		Explanation: "Extracts the complete parameter set of the Pratt parser from the current source — lexeme->token tables (symbols1, symbols2, lookupKeyword), the binding-power rows and the formula initBindingPowers applies to them, lookupBp, the single binding of the parser's lookup fields, the loop test of parseExpression, each led's recursive right-binding power, the nud/led tables, the lexeme->token->operator-constant->String() chain, and the allowRegex flag of every token consumption that is followed by an operand or by a return to the Pratt loop — and compares it with the precedence relation written in the property (10 rows, all left-associative except := and the greedy else branch). For the token set of the language these parameters determine the parse of every operator chain, so a one-row move, a flipped associativity, a <= in the loop, a swapped operator constant or a wrong regex flag is caught for all ordered pairs, not the sampled ones. (W) nothing under Compile/Parse writes memory that existed before the call: the parse is a function of the text (no cache of parsed sub-expressions or parser state shared between calls). NOT decided: the path/predicate/group re-association done by optimize. (PARENS) parentheses are opaque to the tree builder: BlockNode contents are read only by BlockNode's own methods.",
+		Explanation: "Extracts the complete parameter set of the Pratt parser from the current source — lexeme->token tables (symbols1, symbols2, lookupKeyword), the binding-power rows and the formula initBindingPowers applies to them, lookupBp, the single binding of the parser's lookup fields, the loop test of parseExpression, each led's recursive right-binding power, the nud/led tables, the lexeme->token->operator-constant->String() chain, and the allowRegex flag of every token consumption that is followed by an operand or by a return to the Pratt loop — and compares it with the precedence relation written in the property (10 rows, all left-associative except := and the greedy else branch). For the token set of the language these parameters determine the parse of every operator chain, so a one-row move, a flipped associativity, a <= in the loop, a swapped operator constant or a wrong regex flag is caught for all ordered pairs, not the sampled ones. (W) nothing under Compile/Parse writes memory that existed before the call: the parse is a function of the text (no cache of parsed sub-expressions or parser state shared between calls). NOT decided: the path/predicate/group re-association done by optimize. (PARENS) parentheses are opaque to the tree builder: BlockNode contents are read only by BlockNode's own methods. (WSDEF) every set of whitespace characters the lexer tests for is the same set. (BLOCKKEEP) every successful return of (*BlockNode).optimize is a *BlockNode: optimisation never removes parentheses.",
 		Rule:        commonRule,
 		Fixtures:    []string{"tab"},
 		Run: func(c *Ctx, r *Result) {
@@ -302,7 +302,7 @@ func init() {
 	})
 	register(&propDef{
 		ID:          "C10",
-		Explanation: "Decides: (SEQ) no *sequence escapes (see C01); (FIN) every float result of every function bound in the base environment (and their callees) and every float boxed into a value under Eval is finite or guarded by two-sided IsInf/IsNaN tests; (MARSHAL) every type implementing jtypes.Callable marshals as the constant \"\" through callableMarshaler, every built-in's first result type is JSON-closed, jsonata.ErrUndefined is referenced only by Expr.Eval and returned exactly on the !IsValid edge, and EvalBytes is json.Unmarshal(error checked) -> Eval(on the decoded value, error checked) -> json.Marshal(of Eval's result). (BOXVAL) no reflect.Value handle is boxed into an interface{} that is returned or stored as data (a missing .Interface() would put an internal type, which marshals as {}, into the result). NOT decided: that every nested value of every result is JSON-representable.",
+		Explanation: "Decides: (SEQ) no *sequence escapes (see C01); (FIN) every float result of every function bound in the base environment (and their callees) and every float boxed into a value under Eval is finite or guarded by two-sided IsInf/IsNaN tests; (MARSHAL) every type implementing jtypes.Callable marshals as the constant \"\" through callableMarshaler, every built-in's first result type is JSON-closed, jsonata.ErrUndefined is referenced only by Expr.Eval and returned exactly on the !IsValid edge, and EvalBytes is json.Unmarshal(error checked) -> Eval(on the decoded value, error checked) -> json.Marshal(of Eval's result). (BOXVAL) no reflect.Value handle is boxed into an interface{} that is returned or stored as data (a missing .Interface() would put an internal type, which marshals as {}, into the result). NOT decided: that every nested value of every result is JSON-representable. Every callable struct type has MarshalJSON in its value method set (jtypes.Resolve dereferences callables).",
 		Rule:        commonRule,
 		Fixtures:    []string{"seq", "fin", "marshal"},
 		Run: func(c *Ctx, r *Result) {
@@ -335,7 +335,7 @@ func init() {
 	})
 	register(&propDef{
 		ID:          "C14",
-		Explanation: "Thin: decides structural necessary conditions of the object model. (GROUP) in groupItemsByKey every store into the key map uses a key that is a string by construction (a string literal's Value, or jtypes.AsString with its ok result tested) and follows a comma-ok lookup of the same key, lying on its absent edge or after the test that the entry found came from the same key/value pair — so a second pair producing an existing key reaches the duplicate-key error instead of overwriting or merging, and a non-string key the illegal-key error; (COVER) the object functions' loops over a struct's fields and over a key list run from the first to the last entry, step one, bounded by that container's own length ($keys, $each, $sift, $spread, $merge visit every member once); (W) evalObject, groupItemsByKey and the object built-ins write only memory of the evaluation and keep no state. NOT decided: the partition law itself (which items belong to which key), the value evaluation over a group, $merge precedence, $lookup = field selection — value-level.",
+		Explanation: "Thin: decides structural necessary conditions of the object model. (GROUP) in groupItemsByKey every store into the key map uses a key that is a string by construction (a string literal's Value, or jtypes.AsString with its ok result tested) and follows a comma-ok lookup of the same key, lying on its absent edge or after the test that the entry found came from the same key/value pair — so a second pair producing an existing key reaches the duplicate-key error instead of overwriting or merging, and a non-string key the illegal-key error; (COVER) the object functions' loops over a struct's fields and over a key list run from the first to the last entry, step one, bounded by that container's own length ($keys, $each, $sift, $spread, $merge visit every member once); (W) evalObject, groupItemsByKey and the object built-ins write only memory of the evaluation and keep no state. NOT decided: the partition law itself (which items belong to which key), the value evaluation over a group, $merge precedence, $lookup = field selection — value-level. (DEDUP) test-and-set pairing on set-like maps: a name appended because it was absent from the set is stored into it.",
 		Rule:        commonRule,
 		Fixtures:    []string{"w", "shape"},
 		Run: func(c *Ctx, r *Result) {
@@ -362,7 +362,7 @@ func init() {
 	})
 	register(&propDef{
 		ID:          "C17",
-		Explanation: "Thin: decides structural necessary conditions of the regex functions. (KEYS) the match object built by (*matchCallable).Call and the members jlib.callMatchFunc reads back are the same set of names (writer/reader agreement: match, start, end, groups, next); findMatches asks the engine for all matches with group offsets (FindAllStringSubmatchIndex(s, -1)); a regex literal is regexp.Compile(token text) with the error tested, so an invalid pattern is a compile error; no jlib function applies a regexp method to anything but the package's own fixed patterns, so $match, $contains, $split and $replace all work from the one match list findMatches produces; (BND needs) $split and $replace slice the subject only after checkMatchRanges; (W) the regex callables and $match/$contains/$split/$replace write only memory of the evaluation (no cache of compiled patterns or matches). NOT decided: agreement of offsets, groups and $N expansion with RE2 as values; flags; the limit argument.",
+		Explanation: "Thin: decides structural necessary conditions of the regex functions. (KEYS) the match object built by (*matchCallable).Call and the members jlib.callMatchFunc reads back are the same set of names (writer/reader agreement: match, start, end, groups, next); findMatches asks the engine for all matches with group offsets (FindAllStringSubmatchIndex(s, -1)); a regex literal is regexp.Compile(token text) with the error tested, so an invalid pattern is a compile error; no jlib function applies a regexp method to anything but the package's own fixed patterns, so $match, $contains, $split and $replace all work from the one match list findMatches produces; (BND needs) $split and $replace slice the subject only after checkMatchRanges; (W) the regex callables and $match/$contains/$split/$replace write only memory of the evaluation (no cache of compiled patterns or matches). NOT decided: agreement of offsets, groups and $N expansion with RE2 as values; flags; the limit argument. (ESCSKIP) in scanRegex the rune after a backslash is consumed before scanning continues; the previous-rune form must carry a constant over after an escaped rune.",
 		Rule:        commonRule,
 		Fixtures:    []string{"w"},
 		Run: func(c *Ctx, r *Result) {
@@ -418,7 +418,7 @@ func init() {
 	})
 	register(&propDef{
 		ID:          "C13",
-		Explanation: "Decides: the functions implementing order-by and $sort write only memory of the same evaluation and hand none to unreviewed library code (W restricted to the sort machinery: no pooled or cached sort records); every sort call reachable from Eval is a stable variant (sort.SliceStable/sort.Stable); every comparator handed to them returns only constants, strict < / > tests, or calls that return only those (no <=, >=, ==, negation, lte) — a non-strict less function breaks stability for ties; the slice sorted in place is allocated by the same evaluation; jlib.merge calls the user comparator as swap(left head, right head) and takes the left head on a false result, so the hand-written merge sort is stable. Go's unstable sort is an insertion sort below 12 items, so none of this is visible to the suite. NOT decided: permutation/order/error clauses as values, key typing, direction per term. (MISSLAST) the order-by comparator answers false when the first item's key is absent and true when the second item's is: items without the key go last; (SORTTYPES) mixed number/string keys of one term are detected whatever lies between them.",
+		Explanation: "Decides: the functions implementing order-by and $sort write only memory of the same evaluation and hand none to unreviewed library code (W restricted to the sort machinery: no pooled or cached sort records); every sort call reachable from Eval is a stable variant (sort.SliceStable/sort.Stable); every comparator handed to them returns only constants, strict < / > tests, or calls that return only those (no <=, >=, ==, negation, lte) — a non-strict less function breaks stability for ties; the slice sorted in place is allocated by the same evaluation; jlib.merge calls the user comparator as swap(left head, right head) and takes the left head on a false result, so the hand-written merge sort is stable. Go's unstable sort is an insertion sort below 12 items, so none of this is visible to the suite. NOT decided: permutation/order/error clauses as values, key typing, direction per term. (MISSLAST) the order-by comparator answers false when the first item's key is absent and true when the second item's is: items without the key go last; (SORTTYPES) mixed number/string keys of one term are detected whatever lies between them. (PERITEM) what parseSort records for a sort term is computed in that term's own round of the loop. (SORTVALID) order-by returns a value only behind the err == nil edge of the key validator.",
 		Rule:        commonRule,
 		Fixtures:    []string{"sort", "shape"},
 		Run: func(c *Ctx, r *Result) {
@@ -461,7 +461,7 @@ func init() {
 	})
 	register(&propDef{
 		ID:          "C15",
-		Explanation: "Decides: (W) the array, higher-order and aggregate built-ins of jlib/array.go, hof.go and aggregate.go write only memory they allocated themselves — no append into the spare capacity of an argument, no in-place reversal or sort — so a result never shares storage with an argument or with another result; (HASH) no function under $distinct (and nothing else under Eval) uses a map with interface keys indexed by a dynamically typed value (panics on arrays/objects/functions) or an fmt.Sprint rendering as the identity of a value (conflates {\"a\":1} and {\"a\":\"1\"}); and FIN for the aggregate functions $sum/$max/$min/$average (no unguarded overflow). NOT decided: every other definitional clause (visit order, fold direction, permutation), which are value-level. (MAPEQ) a hand-written map equality under $distinct compares sizes and presence.",
+		Explanation: "Decides: (W) the array, higher-order and aggregate built-ins of jlib/array.go, hof.go and aggregate.go write only memory they allocated themselves — no append into the spare capacity of an argument, no in-place reversal or sort — so a result never shares storage with an argument or with another result; (HASH) no function under $distinct (and nothing else under Eval) uses a map with interface keys indexed by a dynamically typed value (panics on arrays/objects/functions) or an fmt.Sprint rendering as the identity of a value (conflates {\"a\":1} and {\"a\":\"1\"}); and FIN for the aggregate functions $sum/$max/$min/$average (no unguarded overflow). NOT decided: every other definitional clause (visit order, fold direction, permutation), which are value-level. (MAPEQ) a hand-written map equality under $distinct compares sizes and presence. (NUMKINDS) a type switch that tests some numeric kinds tests all twelve. (HOFARGS) the callback's whole-array argument is the array its value argument was read from.",
 		Rule:        commonRule,
 		Fixtures:    []string{"hash", "fin", "w", "shape"},
 		Run: func(c *Ctx, r *Result) {
@@ -551,7 +551,7 @@ func init() {
 	})
 	register(&propDef{
 		ID:          "C19",
-		Explanation: "Decides: (TAB) expandDateComponent's switch and defaultDateFormats cover all 17 declared date components; (CLOCK) the only clock read under Eval is time.Now in Expr.newEnv, called once per Eval outside loops, and $now and $millis embed conversions of one and the same SSA value; (GUARD-API) no nanoseconds-since-epoch API (UnixNano: defined only 1678..2262) is reachable from $toMillis; (GUARD) every integer division/modulo under $fromMillis has a dominating non-zero test of its divisor; (W) $fromMillis/$toMillis and the picture machinery beneath them are functions of their arguments (no write to pre-existing memory, no process-wide cache). NOT decided: calendar field values (the 12-hour clock showing 0 for the midnight hour is real and value-level), the inverse law. (RANGE12) interval proof over SSA with difference constraints: every integer that the formatter dispatched for the 12-hour component hands to formatIntegerComponent lies in 1..12, from time.Time.Hour in 0..23, x % 12 in 0..11 for non-negative x and the dominating zero test; the constant flag passed by the dispatching function is assumed inside the shared helper.",
+		Explanation: "Decides: (TAB) expandDateComponent's switch and defaultDateFormats cover all 17 declared date components; (CLOCK) the only clock read under Eval is time.Now in Expr.newEnv, called once per Eval outside loops, and $now and $millis embed conversions of one and the same SSA value; (GUARD-API) no nanoseconds-since-epoch API (UnixNano: defined only 1678..2262) is reachable from $toMillis; (GUARD) every integer division/modulo under $fromMillis has a dominating non-zero test of its divisor; (W) $fromMillis/$toMillis and the picture machinery beneath them are functions of their arguments (no write to pre-existing memory, no process-wide cache). NOT decided: calendar field values (the 12-hour clock showing 0 for the midnight hour is real and value-level), the inverse law. (RANGE12) interval proof over SSA with difference constraints: every integer that the formatter dispatched for the 12-hour component hands to formatIntegerComponent lies in 1..12, from time.Time.Hour in 0..23, x % 12 in 0..11 for non-negative x and the dominating zero test; the constant flag passed by the dispatching function is assumed inside the shared helper. (ARGUSE) every argument of FromMillis is read on every path to a successful return.",
 		Rule:        commonRule,
 		Fixtures:    []string{"guard", "tab", "w", "shape"},
 		Run: func(c *Ctx, r *Result) {
@@ -1112,7 +1112,7 @@ func init() {
 	})
 	register(&propDef{
 		ID:          "C07",
-		Explanation: "Decides input immutability as a frame condition for all programs and inputs: every in-place mutation reachable from Eval (reflect.Value.Set*/SetMapIndex, element and field stores, append into spare capacity, sort.*, copy, delete, json decode destinations) targets memory allocated during the same evaluation. The transform operator has two obligations: (a) its pattern is evaluated against a deep copy made in the call (decided: the context handed to eval is deep-fresh), and (b) the SetMapIndex targets lie inside that copy — (b) does not hold: a pattern result is an arbitrary evaluation result ($$ or a variable selects the caller's own document), which is the known finding. NOT decided: that the transform's result equals the specified modified copy.",
+		Explanation: "Decides input immutability as a frame condition for all programs and inputs: every in-place mutation reachable from Eval (reflect.Value.Set*/SetMapIndex, element and field stores, append into spare capacity, sort.*, copy, delete, json decode destinations) targets memory allocated during the same evaluation. The transform operator has two obligations: (a) its pattern is evaluated against a deep copy made in the call (decided: the context handed to eval is deep-fresh), and (b) the SetMapIndex targets lie inside that copy — (b) does not hold: a pattern result is an arbitrary evaluation result ($$ or a variable selects the caller's own document), which is the known finding. NOT decided: that the transform's result equals the specified modified copy. (CLAUSECTX) eval(f.updates, D) and eval(f.deletes, D) are called with D an element of the list eval(f.pattern) returned.",
 		Rule:        commonRule,
 		Fixtures:    []string{"w"},
 		Run: func(c *Ctx, r *Result) {
@@ -1126,7 +1126,7 @@ func init() {
 	})
 	register(&propDef{
 		ID:          "C12",
-		Explanation: "Decides the scope structure for all programs: (SCOPE) evalBlock and lambdaCallable.Call evaluate in a frame freshly created by newEnvironment whose parent is the current environment / the closure's captured environment; parameters are bound in that new frame; evalLambda, evalTypedLambda, evalPartial and evalObjectTransformation capture the env and context of their definition site; the parent link is written only by newEnvironment and followed only by the write-free lookup (bind cannot reach an outer frame). (W) Callable.Call has no environment parameter, so dynamic scoping or per-call state in a shared callable would need a write to pre-existing memory, which W excludes for every write in callable.go, env.go and the evaluator functions that build or apply function values (evalFunctionApplication/Call, evalPartial, evalLambda, evalBlock, ...) — a function value bound to a variable is never altered by composing, partially applying or calling it — in particular the context item and name of a built-in call live in a per-call copy (the defect behind a.$substringBefore($$.b.c.$substringBefore(\"z\"))). NOT decided: signature matching, placeholder order, chain/compose semantics.",
+		Explanation: "Decides the scope structure for all programs: (SCOPE) evalBlock and lambdaCallable.Call evaluate in a frame freshly created by newEnvironment whose parent is the current environment / the closure's captured environment; parameters are bound in that new frame; evalLambda, evalTypedLambda, evalPartial and evalObjectTransformation capture the env and context of their definition site; the parent link is written only by newEnvironment and followed only by the write-free lookup (bind cannot reach an outer frame). (W) Callable.Call has no environment parameter, so dynamic scoping or per-call state in a shared callable would need a write to pre-existing memory, which W excludes for every write in callable.go, env.go and the evaluator functions that build or apply function values (evalFunctionApplication/Call, evalPartial, evalLambda, evalBlock, ...) — a function value bound to a variable is never altered by composing, partially applying or calling it — in particular the context item and name of a built-in call live in a per-call copy (the defect behind a.$substringBefore($$.b.c.$substringBefore(\"z\"))). NOT decided: signature matching, placeholder order, chain/compose semantics. (CLOSURE) no store into a field of a lambda, partial or transform callable except into one the storing function has just allocated (directly or through a constructor).",
 		Rule:        commonRule,
 		Fixtures:    []string{"w"},
 		Run: func(c *Ctx, r *Result) {
@@ -1191,7 +1191,7 @@ func init() {
 func init() {
 	register(&propDef{
 		ID:          "C08",
-		Explanation: "Decides the panic/hang classes of Compile that are visible in the shape of the code, for every input string: (ERR) every error value that is returned, thrown to Parse's recover, or stored in jparse is nil, a *jparse.Error, lexer.err, or the result of another jparse function (inductively the same), every Error literal carries a declared non-zero ErrType (all of which have messages, TAB), Parse's deferred closure turns exactly the *Error panics into (nil, err), Compile hands Parse's error on with a nil expression and MustCompile panics exactly on err != nil; (LEX) abstract interpretation of the lexer over a finite domain (cursor position, width typestate, one known first rune per cell of the partition induced by the lexer's own constants and tables, unknown runes afterwards): no rewind by a stale width (the double backup behind Compile(\"!é\") and Compile(\"[1.䑁]\")), and every token returned by next other than EOF/error has consumed a rune, for every first rune (the empty-token hang behind function($x)<!>{$x}); (LOOP/REC) every loop under Compile has a recognised variant — parser loops consume a token or panic per cycle, lexer loops read a rune and leave at eof, accept predicates reject eof — and every recursive SCC a reviewed descent; (TAB/PANIC) each led is registered for exactly the tokens its switch handles, so every explicit 'unexpected ...' panic under Compile is unreachable. (BND) every native index and slice expression under Compile is in range: its bounds check is removed by the Go compiler's prove pass, or a difference-constraint proof gives 0 <= low <= high <= len, or the unproved part is covered by a reviewed one-site invariant (the lexer's cursor invariant being the one LEX maintains) — the class of Compile(\"function($x)<(>{$x}\"), which sliced with -1. NOT decided, and said so: stack depth on deeply nested input. (OPTALL) in every optimize method a child taken from the receiver as it was parsed is never stored into a node, appended to a node list or returned without having gone through optimize(): only optimised nodes are in the tree Compile returns, which is what keeps the interim node types away from eval.",
+		Explanation: "Decides the panic/hang classes of Compile that are visible in the shape of the code, for every input string: (ERR) every error value that is returned, thrown to Parse's recover, or stored in jparse is nil, a *jparse.Error, lexer.err, or the result of another jparse function (inductively the same), every Error literal carries a declared non-zero ErrType (all of which have messages, TAB), Parse's deferred closure turns exactly the *Error panics into (nil, err), Compile hands Parse's error on with a nil expression and MustCompile panics exactly on err != nil; (LEX) abstract interpretation of the lexer over a finite domain (cursor position, width typestate, one known first rune per cell of the partition induced by the lexer's own constants and tables, unknown runes afterwards): no rewind by a stale width (the double backup behind Compile(\"!é\") and Compile(\"[1.䑁]\")), and every token returned by next other than EOF/error has consumed a rune, for every first rune (the empty-token hang behind function($x)<!>{$x}); (LOOP/REC) every loop under Compile has a recognised variant — parser loops consume a token or panic per cycle, lexer loops read a rune and leave at eof, accept predicates reject eof — and every recursive SCC a reviewed descent; (TAB/PANIC) each led is registered for exactly the tokens its switch handles, so every explicit 'unexpected ...' panic under Compile is unreachable. (BND) every native index and slice expression under Compile is in range: its bounds check is removed by the Go compiler's prove pass, or a difference-constraint proof gives 0 <= low <= high <= len, or the unproved part is covered by a reviewed one-site invariant (the lexer's cursor invariant being the one LEX maintains) — the class of Compile(\"function($x)<(>{$x}\"), which sliced with -1. NOT decided, and said so: stack depth on deeply nested input. (OPTALL) in every optimize method a child taken from the receiver as it was parsed is never stored into a node, appended to a node list or returned without having gone through optimize(): only optimised nodes are in the tree Compile returns, which is what keeps the interim node types away from eval. (ERRDROP) an error produced by a call inside a loop under Compile is used in the round that produced it.",
 		Rule:        commonRule,
 		Fixtures:    []string{"loop", "tab", "bnd", "ta", "shape"},
 		Run: func(c *Ctx, r *Result) {
